@@ -234,6 +234,8 @@ def r5(run, ctx):
     npaths = 0
     bad = []
 
+    start_fn = W + '_start'
+
     def dfs(f, chain, guarded_so_far, seen):
         nonlocal npaths
         for s in ctx.sites(f):
@@ -242,14 +244,23 @@ def r5(run, ctx):
             for t in s.targets:
                 if not t.key.startswith((W, A)):
                     continue
-                if t.key in START_OPENERS and t.key != W + '_reload':
-                    continue    # permitted openers (statement: start/restart/reload)
+                if f.key == A + 'manage_watchers' and t.key == A + '_start_watchers':
+                    continue    # the on-demand socket event (permitted by the statement)
                 g = guarded_so_far or _not_stopped_guard(ctx, f, s.node)
                 if t.key == sp.key:
                     npaths += 1
                     if not (g or inner_guard):
                         bad.append((chain + [(f, s)]))
                     continue
+                if t.key == start_fn:
+                    # _start flips the status away from 'stopped': only start/restart/
+                    # reload requests may reach it for a stopped watcher
+                    npaths += 1
+                    if not g:
+                        bad.append((chain + [(f, s)]))
+                    continue
+                if t.key in START_OPENERS and t.key != W + '_reload':
+                    continue    # permitted openers (statement: start/restart/reload)
                 if t.key in seen:
                     continue
                 dfs(t, chain + [(f, s)], g, seen | {t.key})
@@ -265,8 +276,9 @@ def r5(run, ctx):
                  'a stopped watcher can be made to spawn: no is_stopped guard on '
                  'the call path', path=['%s:%s %s' % (cf.module.relpath, cs.node.lineno,
                                                      cf.qualname) for cf, cs in chain],
-                 construct='%s -> spawn_process via %s' % (chain[0][0].qualname,
-                                                           f.qualname))
+                 construct='%s -> %s via %s' % (chain[0][0].qualname,
+                                                s.targets[0].name if s.targets else '?',
+                                                f.qualname))
     if not bad:
         run.ok('R5', '%d call paths all guarded' % npaths)
     # manage_processes: first thing is the stopped test
